@@ -346,6 +346,21 @@ func runC03(c *core.Ctx) error {
 		}
 		c.Nontrivial(fmt.Sprint(docs[i]))
 	})
+	// direction 2: the scanner's event streams of a seeded sample of the documents under every blank run, validated by
+	// TLC against JSchemaLex (every literal's span is a JSON scalar on its own, members are separated by one comma ...)
+	{
+		var texts []string
+		stride := c.Pick(23, 5)
+		for i := range docs {
+			if (i+int(c.Seed))%stride != 0 {
+				continue
+			}
+			texts = append(texts, jgRender(docs[i], (i/stride)%len(jgLayouts)))
+		}
+		if err := lexValidate(c, texts, "plain-json"); err != nil {
+			return err
+		}
+	}
 	// size (JsonGen!ScaledSizes): flat arrays, objects and matrices filled with the catalogue's scalars
 	{
 		var scalars []string
@@ -440,6 +455,9 @@ func hasExpOrDupKey(v *jv) bool {
 func init() {
 	register(&core.Check{ID: "C03", Level: "model_checking", Run: runC03,
 		Replay: func(c *core.Ctx, raw json.RawMessage) ([]core.Finding, error) {
+			if fs, ok := lexReplay(raw); ok {
+				return fs, nil
+			}
 			var cs jgCase
 			if err := json.Unmarshal(raw, &cs); err != nil {
 				return nil, err
